@@ -45,6 +45,10 @@ def utf8 (op : String) (args : List String) : String :=
     match unhex h with
     | some bs => if PV.Utf8.isUTF8 bs then "true" else "false"
     | none => "bad-op"
+  | "isutf8", [h, _align] =>      -- the answer does not depend on where the bytes sit in memory
+    match unhex h with
+    | some bs => if PV.Utf8.isUTF8 bs then "true" else "false"
+    | none => "bad-op"
   | "spec.decode", [h] =>    -- oracle (spec side)
     match unhex h with
     | some bs => match PV.Spec.Utf8.specDecode bs with
@@ -52,6 +56,10 @@ def utf8 (op : String) (args : List String) : String :=
       | none => "ERR:notutf8"
     | none => "bad-op"
   | "spec.isutf8", [h] =>
+    match unhex h with
+    | some bs => if PV.Spec.Utf8.specWellFormed bs then "true" else "false"
+    | none => "bad-op"
+  | "spec.isutf8", [h, _align] =>
     match unhex h with
     | some bs => if PV.Spec.Utf8.specWellFormed bs then "true" else "false"
     | none => "bad-op"
